@@ -35,6 +35,19 @@ func c09FormFields(r *rep.Reporter) {
 		{"huge-value", []field{{"X-Amz-Meta-Big", strings.Repeat("m", 5000)}}},
 		{"two-values", []field{{"X-Amz-Meta-Two", "one"}, {"X-Amz-Meta-Two", "tw\x02o"}}},
 	}
+	// every control byte at the start, in the middle and at the end of a stored field value
+	for c := 0; c <= 0x7f; c++ {
+		if (c >= 0x20 && c != 0x7f) || c == '\t' {
+			continue
+		}
+		names := []string{"X-Amz-Meta-Ctl", "Content-Type", "Content-Disposition", "Content-Encoding", "X-Amz-Storage-Class"}
+		for pos, v := range []string{string(rune(c)) + "value", "val" + string(rune(c)) + "ue", "value" + string(rune(c))} {
+			fieldClasses = append(fieldClasses, struct {
+				class  string
+				fields []field
+			}{fmt.Sprintf("byte-%02x-at-%s", c, []string{"start", "middle", "end"}[pos]), []field{{names[(c+pos)%len(names)], v}}})
+		}
+	}
 	keyClasses := []struct{ class, key string }{
 		{"plain", "form/plain"}, {"empty", ""}, {"slash", "/"}, {"nul", "form/a\x00b"}, {"newline", "form/a\nb"}, {"space", " "}, {"ctl", "form/\x01"}, {"dotdot", "../x"}, {"long", strings.Repeat("L", 1025)},
 	}
@@ -43,6 +56,9 @@ func c09FormFields(r *rep.Reporter) {
 		kind := kinds[ki]
 		for _, kc := range keyClasses {
 			for _, fc := range fieldClasses {
+				if strings.HasPrefix(fc.class, "byte-") && kc.class != "plain" {
+					continue
+				}
 				s := mustServer(drv.Opts{Kind: kind})
 				bucket := "fz-form"
 				if drv.IsSingle(kind) {
